@@ -462,7 +462,9 @@ def recheck(a):
     if not todo:
         return 0
     exe = build_mutgen()
-    workers = [Worker(pid, 60 + k) for k in range(a.jobs)]
+    if a.reverse:      # a second process working the same list from the other end (use a different --worker-base)
+        todo.reverse()
+    workers = [Worker(pid, a.worker_base + k) for k in range(a.jobs)]
     lock = threading.Lock()
     state = {"next": 0}
     fout = open(os.path.join(OUT, pid + ".jsonl"), "a")
@@ -485,6 +487,13 @@ def recheck(a):
                     if state["next"] >= len(todo) or (a.deadline and time.strftime("%H:%M", time.gmtime()) >= a.deadline):
                         return
                     r = todo[state["next"]]; state["next"] += 1
+                if a.reverse:   # skip what the other process has finished meanwhile
+                    try:
+                        if any(json.loads(l).get("key") == r["key"] and json.loads(l).get("check_version") == a.check_version
+                               for l in open(os.path.join(OUT, pid + ".jsonl")) if r["key"] in l):
+                            continue
+                    except ValueError:
+                        pass
                 rec = {k: r[k] for k in ("key", "pid", "file", "id", "op", "desc", "line", "col", "func", "orig_line", "mut_line") if k in r}
                 rec["previous_outcome"] = r["outcome"]; rec["check_version"] = a.check_version
                 if "suite_s" in r:
@@ -683,6 +692,8 @@ def main():
     ap.add_argument("--recheck", action="store_true", help="re-run ./check on all survivors and a sample of the detected mutants")
     ap.add_argument("--detected-sample", type=int, default=12)
     ap.add_argument("--check-version", default="v2")
+    ap.add_argument("--reverse", action="store_true")
+    ap.add_argument("--worker-base", type=int, default=60)
     ap.add_argument("--deadline", help="HH:MM (UTC, same day): stop handing out mutants at that time")
     ap.add_argument("--baseline", action="store_true", help="run ./check PID on an unchanged scratch tree with the current corpus")
     ap.add_argument("--probe", help="mutant selector 'file:line:desc-substring'")
